@@ -355,8 +355,18 @@ class Gen:
                         out.append(ast.JoinedStr(values=vals, lineno=1, col_offset=c, end_lineno=1, end_col_offset=c + 5))
                         c += 6
                 return out
+            if inner.startswith("(") or inner.startswith("obj:"):
+                return [self.value(inner) for _ in range(r.randint(0, 3))]
             kinds = [("Tok" if k.strip() == "Tok" else k.strip().split(".")[-1].replace("PosNode", "Call")) for k in self.split(inner[6:-1] if inner.startswith("union[") else inner, "|")]
             return self.pieces(kinds, r.randint(0, 5))
+        if ty == "none":
+            return None
+        if ty.startswith("(") and ty.endswith(")"):
+            return tuple(self.value(t) for t in self.split(ty[1:-1], ","))
+        if ty == "obj:ast.arg":
+            return ast.arg(arg=r.choice(["a", "b", "kw"]), annotation=None, **self.locs())
+        if ty == "obj:AnyNode":
+            return self.node()
         if ty.startswith("abslist["):
             return [ast.Constant(value=r.choice(["t", "a\\nb", ""]), **self.locs()) if r.random() < 0.6 else
                     ast.FormattedValue(value=self.node("Name"), conversion=-1, format_spec=None, **self.locs()) for _ in range(r.randint(0, 3))]
